@@ -83,10 +83,13 @@ impl WriteCircuitBreaker {
                 sierradb::verif::point("cb.allow.load_lft", &[]);
                 let last_failure = self.last_failure_time.load(Ordering::Acquire);
 
-                if now - last_failure >= self.recovery_timeout.as_millis() as u64 {
-                    // Transition to half-open to test recovery
+                // A concurrent failure report may carry a later timestamp than `now`
+                if now.saturating_sub(last_failure) >= self.recovery_timeout.as_millis() as u64 {
+                    // Transition to half-open to test recovery; this request is itself a
+                    // probe and counts against the half-open limit
                     self.transition_to_half_open();
-                    true
+                    let current_calls = self.half_open_call_count.fetch_add(1, Ordering::AcqRel);
+                    current_calls < self.half_open_max_calls
                 } else {
                     false // Still in failure mode
                 }
@@ -176,7 +179,7 @@ impl WriteCircuitBreaker {
                 #[cfg(sierra_db_sierradb_verif)]
                 sierradb::verif::point("cb.est.load_lft", &[]);
                 let last_failure = self.last_failure_time.load(Ordering::Acquire);
-                let elapsed = Duration::from_millis(now - last_failure);
+                let elapsed = Duration::from_millis(now.saturating_sub(last_failure));
 
                 if elapsed >= self.recovery_timeout {
                     Some(Duration::ZERO) // Ready to recover now
@@ -226,13 +229,9 @@ impl WriteCircuitBreaker {
             Ordering::AcqRel,
             Ordering::Acquire,
         );
-        // Reset half-open counters
-        #[cfg(sierra_db_sierradb_verif)]
-        sierradb::verif::point("cb.tho.calls", &[]);
-        self.half_open_call_count.store(0, Ordering::Release);
-        #[cfg(sierra_db_sierradb_verif)]
-        sierradb::verif::point("cb.tho.succ", &[]);
-        self.half_open_success_count.store(0, Ordering::Release);
+        // The half-open counters were reset when the circuit opened. Resetting them
+        // here as well would wipe the calls other threads already counted in this
+        // half-open episode (and a thread losing the race above would do so too).
     }
 
     fn transition_to_closed(&self) {
